@@ -4,6 +4,7 @@
   message rule engine. Header preservation and message framing of the stream filter are proved
   over the stream model (Frrs/Props/C04Stream.lean once that model is imported).
 -/
+import Frrs.Proofs.Stanza
 import Frrs.Identity
 import Frrs.Proofs.Replace
 import Frrs.Props.C05
@@ -220,5 +221,38 @@ example : rewriteAuthorLine [(b!"author", b!"writer")] b!"author author <a@e> 1 
     = b!"author writer <a@e> 1 +0000\n" := by decide +kernel
 example : mailmapRewriteLine [{ oldEmail := b!"old@e", newName := b!"New", newEmail := b!"new@e" }]
     b!"author Old <old@e> 5 +0000\n" = b!"author New <new@e> 5 +0000\n" := by decide +kernel
+
+/-! ### what the main loop does with the lines of a commit (for every input) -/
+
+/-- **identity lines**: inside a commit an `author`/`committer` line (any line that is not `M …`, blank, or an inline payload
+    header) reaches the commit buffer as `rewriteIdentityLine o line` — the theorems above say what that is; a line that is
+    neither `author` nor `committer` is not touched by the identity rules at all -/
+theorem identity_line_in_commit (o : FOpts) (s : FState) (line inp : Bytes)
+    (h1 : startsWith line b!"M " = false) (h2 : (line == [B.lf]) = false)
+    (h3 : (startsWith line b!"data " && s.pendingInline.isSome) = false) :
+    stepInCommit o s line inp = commitLine o s (rewriteIdentityLine o line) inp :=
+  inCommit_line o s line inp h1 h2 h3
+
+theorem non_identity_line_untouched (o : FOpts) (line : Bytes) (ha : startsWith line kwAuthor = false)
+    (hc : startsWith line kwCommitter = false) : rewriteIdentityLine o line = line :=
+  rewriteIdentityLine_other o line ha hc
+
+/-- **the commit message**: exactly the payload is rewritten (by the message rules), its length header recomputed, and
+    whatever bytes it holds it cannot be mistaken for a command — the next line is read right after it -/
+theorem commit_message_rewritten_exactly (o : FOpts) (s : FState) (line inp payload rest : Bytes) (n : Nat)
+    (hm : parseMarkLine line = none) (hl : startsWith line b!"data " = true)
+    (hh : parseDataHeader line = some n) (hr : readExact n inp = some (payload, rest)) :
+    commitLine o s line inp =
+      .cont (s.push (dataHeader (rewriteMessage o payload).length ++ rewriteMessage o payload)) rest :=
+  commit_message_rewritten o s line inp payload rest n hm hl hh hr
+
+/-- **every other header line survives byte for byte** (`encoding`, signature headers, anything unknown) -/
+theorem other_header_verbatim (o : FOpts) (s : FState) (line inp : Bytes)
+    (hm : parseMarkLine line = none) (h1 : startsWith line b!"original-oid " = false) (h2 : startsWith line b!"data " = false)
+    (h3 : startsWith line b!"from " = false) (h4 : startsWith line b!"merge " = false)
+    (h5 : (startsWith line b!"M " || startsWith line b!"D " || startsWith line b!"C " || startsWith line b!"R " ||
+            line == b!"deleteall\n") = false) :
+    commitLine o s line inp = .cont (s.push line) inp :=
+  commit_other_line_verbatim o s line inp hm h1 h2 h3 h4 h5
 
 end Frrs.C04
